@@ -1,5 +1,6 @@
 import SlotVerif.Props.C08
 import SlotVerif.Props.C01
+import SlotVerif.Proofs.LookupEquiv
 /-!
 # C09 — Insertion is canonical: known terms create nothing, lookup agrees with add
 
@@ -8,7 +9,12 @@ import SlotVerif.Props.C01
 construction, which is the model-level content of "lookup never modifies the e-graph" (the only
 mutation the Rust functions perform is union-find path compression; the harness dumps the state
 before and after and compares).  Proved here: the facts about a consistent state that make the
-lookup result well defined, and the spec-side reading of "represented".
+lookup result well defined, the spec-side reading of "represented", and `lookup_equivariant` —
+**renaming the node's slots renames the result in the same way**: for every state with a well-formed
+union-find, every e-node and every injective renaming of its slot occurrences (free slots, binder
+names, arguments of the children), `lookup` of the renamed node is the renamed `lookup`
+(`Proofs/LookupEquiv.lean`: `find_enode`, group-compatible variants, choice of the minimal variant, weak
+shape with its bijection and the hashcons lookup each commute with the renaming).
 -/
 namespace SV.C09
 open SV SV.Snap SV.SlotMap
@@ -76,5 +82,20 @@ an inserted term is `Cong`-equal to it (so `lookup = Some ⇒ the term is equal 
 theorem represented_sound {o : Orc} (h : Orc.Inv o) {t u : Term} {i j : Nat}
     (hi : o.lookup t = some i) (hj : o.lookup u = some j) (hc : o.find i = o.find j) : Cong o.E t u :=
   SV.C01.spec_equal_sound h hi hj hc
+
+/-- **renaming the term's slots renames the result in the same way** (and an absent node stays absent) -/
+theorem lookup_equivariant {s : Snap} (hok : ufOK s = true) {ρ : Nat → Nat} (hρ : ∀ x y, ρ x = ρ y → x = y) (n : Node) :
+    lookup s (Node.rename ρ n) = (lookup s n).map (renApp ρ) :=
+  lookup_rename (ufOK_sound hok).1 hρ n
+
+/-- … in particular whether a node is already represented does not depend on its slot names -/
+theorem lookup_isSome_equivariant {s : Snap} (hok : ufOK s = true) {ρ : Nat → Nat} (hρ : ∀ x y, ρ x = ρ y → x = y)
+    (n : Node) : (lookup s (Node.rename ρ n)).isSome = (lookup s n).isSome := by
+  rw [lookup_equivariant hok hρ]; cases lookup s n <;> rfl
+
+/-- non-vacuity: on the two-class state of C08, `f($40, $44)` and its renaming by `+100` both hit class 1 -/
+example : ufOK SV.C08.demo = true ∧
+    lookup SV.C08.demo ⟨0, [.slot 40, .slot 44]⟩ = some ⟨1, [(9, 40)]⟩ ∧
+    lookup SV.C08.demo (Node.rename (· + 100) ⟨0, [.slot 40, .slot 44]⟩) = some ⟨1, [(9, 140)]⟩ := by decide
 
 end SV.C09
